@@ -1,5 +1,7 @@
 """C10 — progress mode (DESIGN.md section 4/C10, Appendix A.C10)."""
 from ..speclib import *
+from ..facts import callee_key, walk
+import re
 from .. import typestate, thireq
 from .C09 import run_chain_loop
 
@@ -25,6 +27,7 @@ def run(ctx):
     stats_from_returned(ctx, nc, nd)
     dtype(ctx)
     tracker_total(ctx)
+    no_sample_from_f32(ctx)
     for nm, root, al in (('ChainRunner::run_progress', ctx.anchor('rp', name='run_progress', trait='core::ChainRunner', container='trait'), {'narrow': 3}),
                          ('HMC::run_progress', ctx.anchor('hp', name='run_progress', self_head='hmc::HMC', container='inherent'), {'narrow': 4}),
                          ('NUTS::run_progress', ctx.anchor('np', name='run_progress', self_head='nuts::NUTS', container='inherent'), {'narrow': 6, 'numcast': 3})):
@@ -349,6 +352,31 @@ def collect_rule(ctx, oid, A, ev, ret, b, workerkey, chains_name, stackf):
             found = 'channels: n=%s ok=%s; workers: n=%s ok=%s; sample=%s' % (show(cl.n), okchan, show(fl.n), okwork, found)
     ctx.check(oid, A, 'collect', ok, expected='one channel per chain (n = number of chains); worker c runs chain c in place with sender c; results stacked on the chain axis in chain order', found=found, sp=b['sp'],
               why='run_progress returns a [n_chains, n_collect, dim] array whose row c belongs to chain c (as run does); a missing channel silently drops a chain')
+
+
+def no_sample_from_f32(ctx):
+    """the f32 copies made for the trackers never come back: no tensor is built from f32-typed host data anywhere on the progress paths
+    (numeric conversions are value aliases in the term algebra, so this flow is checked on types)"""
+    roots = [ctx.anchor('hp', name='run_progress', self_head='hmc::HMC', container='inherent'), ctx.anchor('np', name='run_progress', self_head='nuts::NUTS', container='inherent')]
+    bodies = reachable_bodies(ctx, [r for r in roots if r is not None])
+    hits = []
+
+    def visit(root, b):
+        def f(n):
+            if n.get('k') == 'Call' and n.get('fn') and callee_key(n['fn']) in ('burn::tensor::Tensor::from_floats', 'burn::tensor::Tensor::from_data', 'burn::tensor::TensorData::new', 'burn::tensor::TensorData::from'):
+                a = (n.get('args') or [{}])[0]
+                ty = str(a.get('ty', ''))
+                if re.search(r'\bf32\b', ty):
+                    hits.append('%s: %s(%s) at %s' % (strip_generics(root['path']), callee_key(n['fn']).split('::')[-1], ty, n.get('sp')))
+        walk(b.get('thir'), f)
+        for c in ctx.facts.children.get(b['did'], []):
+            if c['def_kind'] == 'Closure':
+                visit(root, c)
+    for b in bodies:
+        visit(b, b)
+    ctx.check('C10.sample_from_f32', 'HMC / NUTS run_progress', 'f32-round-trip', not hits and bool(bodies), expected='no tensor constructed from f32-typed host data on the progress paths (%d bodies scanned)' % len(bodies),
+              found='; '.join(hits) or 'none', sp=None,
+              why='the trackers are fed f32 copies of the state; a tensor rebuilt from such a copy puts f32-rounded values into the returned draws on wider back ends')
 
 
 def tracker_total(ctx):
